@@ -556,7 +556,8 @@ class TemplateASTTransformer(ASTTransformer):
             self.locals.append(set())
             gen = _new(_ast.comprehension, self.visit(generator.target),
                        self.visit(generator.iter),
-                       [self.visit(if_) for if_ in generator.ifs])
+                       [self.visit(if_) for if_ in generator.ifs],
+                       getattr(generator, 'is_async', 0))
             gens.append(gen)
 
         # use node.__class__ to make it reusable as ListComp
